@@ -229,6 +229,30 @@ fn self_field_path(e: &Expr) -> Option<String> {
     None
 }
 
+/// `v[i]` / `v[i].N` with `v` a plain local variable: (v, index expression, tuple field)
+fn indexed_target(e: &Expr) -> Option<(String, &Expr, Option<usize>)> {
+    match e {
+        Expr::Paren(p) => indexed_target(&p.expr),
+        Expr::Index(i) => {
+            if let Expr::Path(p) = &*i.expr {
+                if p.path.segments.len() == 1 {
+                    return Some((p.path.segments[0].ident.to_string(), &*i.index, None));
+                }
+            }
+            None
+        }
+        Expr::Field(f) => {
+            if let Member::Unnamed(n) = &f.member {
+                if let Some((b, i, None)) = indexed_target(&f.base) {
+                    return Some((b, i, Some(n.index as usize)));
+                }
+            }
+            None
+        }
+        _ => None,
+    }
+}
+
 fn self_field_var(path: &str) -> String {
     format!("self_{}", path.replace('.', "_"))
 }
@@ -277,6 +301,11 @@ fn assigned_vars(stmts: &[Stmt], out: &mut Vec<String>) {
                 }
                 if let Expr::Path(p) = &*b.left {
                     let n = p.path.segments.last().unwrap().ident.to_string();
+                    if !self.declared.contains(&n) && !self.out.contains(&n) {
+                        self.out.push(n);
+                    }
+                }
+                if let Some((n, _, _)) = indexed_target(&b.left) {
                     if !self.declared.contains(&n) && !self.out.contains(&n) {
                         self.out.push(n);
                     }
@@ -949,6 +978,22 @@ impl<'a> Tr<'a> {
                         let n = self.assign_name(&a.left)?;
                         let v = self.expr(&a.right)?;
                         Ok(format!("let {} := {}\n{}", n, v, self.stmts(rest, k)?))
+                    }
+                    Expr::Binary(b) if is_compound(&b.op) && indexed_target(&b.left).is_some() => {
+                        // `v[i] op= e` / `v[i].N op= e` on a local list (`.N` of a 2-D point: its x / y component)
+                        let (base, idx_e, field) = indexed_target(&b.left).unwrap();
+                        let base = ident(&base);
+                        let idx = self.expr(idx_e)?;
+                        let r = self.expr(&b.right)?;
+                        let op = compound_op(&b.op);
+                        let cur = format!("(listGet {} {})", base, idx);
+                        let newel = match field {
+                            None => format!("({} {} {})", cur, op, r),
+                            Some(0) => format!("(V2.mk ({}.x {} {}) {}.y)", cur, op, r, cur),
+                            Some(1) => format!("(V2.mk {}.x ({}.y {} {}))", cur, cur, op, r),
+                            Some(n) => return Err(format!("assignment to tuple field .{} of an indexed element unsupported", n)),
+                        };
+                        Ok(format!("let {} := (List.set {} {} {})\n{}", base, base, idx, newel, self.stmts(rest, k)?))
                     }
                     Expr::Binary(b) if is_compound(&b.op) => {
                         let n = self.assign_name(&b.left)?;
